@@ -151,6 +151,8 @@ def to_events(trace):
             ensure(f, c)
             if name in ("st", "h", "o"):
                 pass
+            elif name == "n":
+                evs.append("EFresh %d" % c)
             elif name == "q":
                 evs.append("EReq %d %s" % (c, "true" if arg == "S" else "false"))
                 phase[c], kind[c] = "try0", "lock"
@@ -292,6 +294,16 @@ def plan(ck):
         P.append((["--only", "k2h/%s/man1/" % o], ["--mode", "dfs", "--weak", "1"] + big, True))
         # FairThreadPool(1): exhaustive for the named yield points (sender word + inside the critical section)
         P.append((["--only", "k2h/%s/pool1/" % o], ["--mode", "dfs"] + big + NAMED, True))
+        # guard OBJECTS (UniqueGuard / StickyGuard constructed with std::defer_lock or reused after an unlock, then
+        # g.TryLock() / co_await g.Lock(), moved and swapped) against a plain holder: exhaustive on one worker, without (the
+        # TryLock succeeds) and with (k2gh: it fails / the Lock queues) the holder rescheduled inside its critical section
+        P.append((["--only", "k2g/%s/man1/" % o], ["--mode", "dfs"] + big, True))
+        P.append((["--only", "k2gh/%s/man1/" % o], ["--mode", "dfs"] + big, True))
+        P.append((["--only", "k2gh/%s/man1/" % o], ["--mode", "dfs", "--weak", "1"] + big, True))
+        P.append((["--only", "k2gh/%s/pool1/" % o], ["--mode", "dfs"] + big + NAMED, True))
+        P.append((["--only", "k2g/%s/man2/" % o], ["--mode", "dfs", "--pb", "2", "--max", "30" if quick else "300"] + NAMED, False))
+        P.append((["--only", "k2gh/%s/man2/" % o], ["--mode", "random", "--max", "8" if quick else "40", "--seed", seed, "--weak", "1"], False))
+        P.append((["--only", "k2gh/%s/pool2/" % o], ["--mode", "random", "--max", "4" if quick else "30", "--seed", seed, "--weak", "1"], False))
         # three coroutines behind a holder that hops, one worker
         for u in "aoh":
             P.append((["--exact", "k3/%s/man1/%s" % (o, u)], ["--mode", "dfs"] + big, True))
@@ -337,7 +349,7 @@ def yield_at_of(args):
 def main(ck):
     ck.assumptions = [
         "FIBER backend: sequentially consistent, switches only at the wrapped yaclib_std operations (memory-order effects of the sender word are C04's subject)",
-        "the model is CoMutex.v: the sender word / receiver list protocol of MutexImpl and the awaiters and guards built on it; the coroutine frames, the Future machinery, the guards' owns-bit and the executors' own code are exercised, not modelled; an executor is modelled by its contract only (a submitted coroutine is started once, at any time, by a worker of that executor)",
+        "the model is CoMutex.v: the sender word / receiver list protocol of MutexImpl and the awaiters and guards built on it; a guard object's owns bit is, in the model, the coroutine owning the lock (pc PGot/PIn: a failed TryLock leaves it not owning and only an owner can start a release, so an unlock by a non-owning guard is a trace the model rejects); that OwnsLock() equals the last answer and follows move/Swap is checked by the harness oracle only; the coroutine frames, the Future machinery and the executors' own code are exercised, not modelled; an executor is modelled by its contract only (a submitted coroutine is started once, at any time, by a worker of that executor)",
         "a holder's critical section ends (it releases in one of the forms); only the holder unlocks; a coroutine is resumed only by the executor it was submitted to",
         "tracer reads the word's value through the YACLIB_VERIF after-hook (first 8 bytes of the atomic object); debug build: TryUnlockAwait's asserting load is live and is an event of the model",
         "plain (non-atomic) order `_receiver = next.next` before Submit(curr) in AwaitUnlock is folded into the hand-over event (the receiver list is private to the token holder)",
@@ -477,7 +489,9 @@ def main(ck):
                       "the plain code that follows; random walks switch at both places.  Exhaustive DFS over every scheduling decision (switch "
                       "before every wrapped operation, next fiber, which queued job a worker picks) for k = 2 coroutines x 1 round on ONE "
                       "worker of the manual executor: 18 lock/unlock form pairs x 3 partners x 4 <Batching,FIFO> options, without and with "
-                      "the holder rescheduled inside its critical section, also with one spurious weak-CAS failure; for 3 coroutines "
+                      "the holder rescheduled inside its critical section, also with one spurious weak-CAS failure; 6 guard-OBJECT forms (deferred / "
+                      "reused UniqueGuard and StickyGuard: g.TryLock() succeeding and failing, co_await g.Lock(), move, Swap) x 4 unlock forms "
+                      "against a plain holder; for 3 coroutines "
                       "behind a hopping holder; 'yields=named' DFS (switch only before operations on the sender word and inside critical "
                       "sections; exhaustive for that decision set) on FairThreadPool(1) and, thorough tier, for 8 form pairs x 4 options on "
                       "TWO workers; preemption-bounded DFS (--pb, NOT exhaustive) for the bystander TryLock thread and for all form pairs "
@@ -497,11 +511,34 @@ def main(ck):
         ck.notes.append("%d traces in total disagree with the model" % len(bad))
     if not traces:
         ck.broken.append(dict(name="correspondence CoMutex.run vs implementation", detail="harness produced no traces"))
+    # ---- "what one critical section wrote is visible in the next": a memory-order clause the sequentially consistent
+    # FIBER exploration cannot see.  It is decided by C04's machinery (RAOwn over the orders translated from
+    # include/yaclib/coro/mutex.hpp: c04_mutex_orders_ok; TSan program coro_mutex); that part runs here too and its
+    # coroutine-mutex verdicts count for C14.
+    from checks import c04
+    sub = runner.Check("C04", ck.tier, ck.seed)
+    c04.main(sub)
+    n_h = n_b = 0
+    for h in sub.hits:
+        if "coro_mutex" in h["what"]:
+            n_h += 1
+            ck.hits.append(dict(what="[C04 machinery, visibility between critical sections] %s" % h["what"], key="viaC04:%s" % h.get("key"),
+                                replay=dict(h.get("replay") or {}, via="C04")))
+    for b in sub.broken:
+        if "c04_mutex_orders_ok" in b["name"]:
+            n_b += 1
+            ck.broken.append(dict(name="[C04 machinery] " + b["name"], detail=b["detail"]))
+    ck.cov["visibility_clause_via_C04"] = dict(race_reports=n_h, obligations_broken=n_b, obligation="c04_mutex_orders_ok",
+                                               tsan_program="coro_mutex")
+
 
 
 def replay(ck, path):
     d = json.load(open(path))
     rp = d.get("replay") or {}
+    if rp.get("via") == "C04":
+        from checks import c04
+        return c04.replay(ck, path)
     if not rp.get("scenario") or rp.get("choices") is None:
         print("nothing to replay: %s" % json.dumps(d)[:2000])
         return 0
